@@ -5,7 +5,9 @@ package main
 // Vector commands (build tags "verif vectors"; go-faiss is replaced by /verif/fakefaiss).
 
 import (
+	"bytes"
 	"fmt"
+	"runtime"
 	"sort"
 	"strconv"
 	"strings"
@@ -38,7 +40,30 @@ func (e *Exec) vecInit() {
 
 // settle waits until the engine-side counters stop changing (index Close runs
 // in a goroutine started by the cache).
+// pendingAsyncCloses: the cache releases an engine index in a goroutine of its own
+// (`cacheEntry.close`); such a goroutine exists from the `go` statement until the release is done, and
+// shows in the goroutine dump under that function's name.  (nil answer: the dump did not fit.)
+func pendingAsyncCloses() *bool {
+	buf := make([]byte, 8<<20)
+	n := runtime.Stack(buf, true)
+	if n >= len(buf) {
+		return nil
+	}
+	p := bytes.Contains(buf[:n], []byte("(*cacheEntry).close.func"))
+	return &p
+}
+
+// settle waits until every release the cache has started has happened - first by looking for the
+// goroutines that do them (exact, however slow the machine is), then until the engine's counters stand
+// still for a moment (for whatever is not recognised by name) - and returns the counters.
 func settle() faiss.Counters {
+	for i := 0; i < 20000; i++ {
+		p := pendingAsyncCloses()
+		if p == nil || !*p {
+			break
+		}
+		time.Sleep(500 * time.Microsecond)
+	}
 	prev := faiss.VerifCounters()
 	for i := 0; i < 200; i++ {
 		time.Sleep(2 * time.Millisecond)
